@@ -5,14 +5,15 @@ import os
 
 PROP = {
     "bin": "c01",
-    "coq_targets": ["theories/Isa/C01Check", "theories/Isa/X86Proofs", "theories/Isa/X86Tie", "theories/Isa/X86SimMem", "theories/Isa/X86SimStack"],
+    "coq_targets": ["theories/Isa/C01Check", "theories/Isa/X86Proofs", "theories/Isa/X86Tie", "theories/Isa/X86SimMem", "theories/Isa/X86SimStack", "theories/Isa/X86SimCarry"],
     "n": {"quick": int(os.environ.get("C01_N", "2000")), "thorough": 40000},
     "theorems": ["reg_get_set_correct", "reg_set_prefix_refuted", "of_add_correct", "of_sub_correct", "cf_sub_correct",
                  "cf_add_correct", "sf_correct", "set_zf_den", "set_sf_den", "set_cf_den", "set_of_den", "lift_mov_reg_reg_correct",
                  "add_reg_ops_correct", "sub_reg_ops_correct", "cmp_reg_ops_correct", "logic_reg_ops_correct", "incdec_reg_ops_correct",
                  "il_run_one_block", "add_sim", "sub_sim", "cmp_sim", "logic_sim", "incdec_sim", "mov_sim", "tie_transfers",
                  "ck_tie_is_syntactic_tie", "cc_condition_correct", "setcc_sim", "movx_sim", "addr_expr_correct", "lea_sim", "mem_load_spec", "mem_store_spec", "mov_load_sim", "mov_store_sim", "add_load_sim", "sub_load_sim",
-                 "cmp_load_sim", "logic_load_sim", "movx_load_sim", "add_rmw_sim", "sub_rmw_sim", "tie_transfers_when", "logic_rmw_sim", "cmp_mem_sim", "incdec_rmw_sim", "push_sim", "pop_sim", "push_mem_sim", "pop_mem_sim"],
+                 "cmp_load_sim", "logic_load_sim", "movx_load_sim", "add_rmw_sim", "sub_rmw_sim", "tie_transfers_when", "logic_rmw_sim", "cmp_mem_sim", "incdec_rmw_sim", "push_sim", "pop_sim", "push_mem_sim", "pop_mem_sim",
+                 "adc_sim", "adc_load_sim", "adc_rmw_sim", "sbb_sim", "sbb_load_sim", "sbb_rmw_sim"],
     "rule": "instruction encodings enumerated from the opcode tables of harness/src/bin/c01.rs (mnemonic x operand size 8/16/32/64(/128) x "
             "register/memory/immediate forms x legacy high-byte registers x rep/repne x both modes, plus 412 operand-aliasing forms -- same-register pairs, sub-register-of-destination sources, base/index = destination -- and 136 address-size-prefixed forms (amd64 0x67 32-bit addressing for lea/mov/add, x86 0x67 16-bit addressing for lea) -- that are visited first, 1 in 3, so the quick tier contains all 548 of them; about 5 800 forms); per memory operand the six states cycle through plain / wrapping (index with the top address bit set, base solved modulo 2^asz so that base+index*scale+disp wraps 2^16, 2^32 or 2^64 into a scratch page) / boundary-index scenarios, prefixed registers carry garbage above the address width, lea sums are placed at wrap-by-a-little, 2^asz-1 and 2^(asz-1), visited in a "
             "seed-dependent permutation, wrapping around with fresh operands/states when n exceeds the table; each encoding with 6 "
@@ -27,15 +28,17 @@ PROP = {
                     "results the SDM calls undefined are not compared; PF/AF are not modelled by the lifter and not compared (PF is an input to jp/setp/cmovp)",
                     "32-bit mode has no processor oracle on this host: x86 forms are compared with Isa/X86.v only (the same spec functions are validated through the amd64 encodings)"],
     "partial": [
-        "THEOREM + SYNTACTIC TIE, all states (Props/C01.v: *_sim theorems + tie_transfers): for these forms, for every well-formed machine state and EVERY IL state embedding it, "
-        "X86Run.run_instr on the real lifter's dumped IL (carried over by the syntactic tie, checked each run) ends in a state embedding X86.step's result -- all GPRs, "
-        "CF/ZF/SF/OF/DF (where the spec defines them), memory, next address. Forms: mov/add/sub/cmp/and/or/xor with register destination (al/ah/ax/eax/rax-style, both modes) and "
-        "register or immediate source; inc/dec register; setcc r8 for the 14 codes that do not read PF; movzx/movsx/movsxd with register source; lea r, [base+index*scale+disp] at every "
-        "address size incl. the 0x67 prefix (wrap at 2^16/2^32/2^64). In the quick tier: 326 of 2 000 encodings (evidence extra.stats['encodings:sim-theorem-and-tie']); "
-        "7 more (xor x,x lifted to the constant 0; setp/setnp) have the tie but no theorem. Also proved for all values: X86Register::get/set, set_zf/sf/of/cf, cc_condition for all 16 codes, "
-        "Mode::operand_value address expressions = X86.ea",
-        "NOT mirrored / no theorem (processor + spec on sampled states only): every MEMORY-operand form of mov/ALU (loads/stores), push/pop, adc/sbb, test/neg/not, xchg/xadd, "
-        "shifts/rotates, shld/shrd, mul/div, bt*, bsf/bsr, string instructions, cmovcc/jcc/loop (multi-block graphs), call/ret/jmp/leave",
+        "THEOREM + SYNTACTIC TIE, all states (Props/C01.v: *_sim theorems + tie_transfers / tie_transfers_when): for these forms, for every well-formed machine state and EVERY IL state "
+        "embedding it, X86Run.run_instr on the real lifter's dumped IL (carried over by the syntactic tie, checked each run) ends in a state embedding X86.step's result -- all GPRs, "
+        "CF/ZF/SF/OF/DF (where the spec defines them), memory, next address. Forms: mov, add, sub, cmp, and, or, xor, adc, sbb in all three operand positions (r <- r|imm, r <- [m], "
+        "[m] <- r|imm: load, store, read-modify-write), inc/dec r and [m], setcc r8 (14 codes that do not read PF), movzx/movsx/movsxd from register and from memory, "
+        "lea r,[base+index*scale+disp], push r|imm|[m] (incl. push rsp, 16-bit), pop r|[m] (incl. pop rsp); all sub-register kinds (al/ah/ax/eax/rax), both modes, every address size "
+        "incl. the 0x67 prefix. Memory/stack forms are proved under the state condition that the accessed bytes do not cross the end of the address space of the operand's address "
+        "size (no_wrap / push_no_wrap / pop_no_wrap; the spec wraps there, Sem faults). In the quick tier: 935 of 2 000 encodings (46.8 %, evidence "
+        "extra.stats['encodings:sim-theorem-and-tie']); 7 more (xor x,x lifted to the constant 0; setp/setnp) have the tie but no theorem. Also proved for all values: "
+        "X86Register::get/set, set_zf/sf/of/cf, cc_condition for all 16 codes, Mode::operand_value address expressions = X86.ea, Sem.mem_load/mem_store = X86 mem_rd/mem_wr at 8/16/32/64 bits",
+        "NOT mirrored / no theorem (processor + spec on sampled states only): absolute and rip-relative memory operands (no base, no index) of every form; test/neg/not, xchg/xadd/cmpxchg, "
+        "imul/mul/div/idiv, shl/shr/sar/rol/ror/shld/shrd, bt*, bsf/bsr, string instructions, cmovcc/jcc/loop (multi-block graphs), call/ret/jmp/leave, cbw..cqo, flag instructions, SSE",
         "processor + specification comparison on sampled states only ([D]): every other accepted form of the core classes (ALU incl. adc/sbb/test/neg/not, all memory forms, movzx/movsx/movsxd/lea/xchg/push/pop/call/ret/leave, jmp/jcc/setcc/cmovcc/loop/jecxz, shl/shr/sar/rol/ror/shld/shrd, mul/imul/div/idiv, cbw..cqo, bt/bts/btr/btc, bsf/bsr, movs/cmps/stos/lods/scas with rep, clc/stc/cmc/cld/std)",
         "architecturally undefined (form, state) combinations are never compared: X86.step returns XUnspec there and the oracle is silent (only the tie is evaluated) -- "
         "shld/shrd r/m16 with a masked count above 16 (imm8 or cl; the only count > operand size combination that exists), besides the per-component undefined results "
@@ -46,8 +49,10 @@ PROP = {
     ],
     "level_text": "Per run, inside the Coq kernel: every generated encoding is lifted by the real lifter, its IL is run in the reference IL semantics from 6 machine states and compared "
                   "with the host processor's result for the same bytes (amd64) and with the Coq ISA specification X86.step (both modes); a sort error at lift or run time is a failure. "
-                  "Unbounded Coq theorems for the shared helper layer (sub-register get/set, flag formulas) for all values; syntactic tie of a Gallina mirror to the dumped IL for the "
-                  "register/immediate forms of nine mnemonics, and all-states theorems for those forms at the level of the emitted operation list.",
+                  "Unbounded Coq theorems (all machine states, all embedding IL states) against X86.step, transferred to the real lifter's dumped IL by a syntactic tie checked each run, for "
+                  "mov/add/sub/cmp/and/or/xor/adc/sbb in every operand position (register, immediate, memory load/store/read-modify-write), inc/dec, setcc (14 codes), movzx/movsx, lea, push/pop: "
+                  "935 of the 2 000 quick-tier encodings (46.8 %); memory and stack forms under a no-address-wrap condition on the state. The other 53 % (absolute/rip-relative operands, shifts, "
+                  "mul/div, bit tests, strings, control flow, xchg/xadd, test/neg/not, SSE) rest on the sampled-state comparison only.",
     "level_note": "Differential against the processor for breadth (sampled states), proof for the helper layer only. Trusted: Coq kernel + vm_compute, the CPU and the native runner, "
                   "the ISA transcription (validated against the CPU each run), the harness encoder/printer, Exec/Sem.v.",
 }
